@@ -242,6 +242,9 @@ func build(tier string) []*vkit.Scenario {
 			add(cfg{exec: e, submitters: 3, jobsEach: 2, must: -1}, pq)
 		}
 	}
+	// second family (engine.go): close handling of the real nbhttp engine vs. running / queued
+	// handlers and WebSocket callbacks
+	out = append(out, engineScenarios(tier)...)
 	return out
 }
 
